@@ -202,6 +202,7 @@ class Check:
         h['wall_s'] = round(time.time() - t, 3)
         h['queries'] = ctx.queries
         h['solver_s'] = round(ctx.solver_time, 3)
+        h['feasibility_unknown_treated_as_feasible'] = ctx.unknown_feasible
         if h['status'] == 'ok':
             # vacuity guards
             if h['paths'] < min_paths:
